@@ -111,7 +111,7 @@ def run(d, ids, tier):
             last = out.strip().splitlines()[-1] if out.strip() else ""
             print("%s %s on %s: exit %d  %s  %s" % (pid, tier, os.path.basename(d), rc, keys[:4], last[-60:]))
             if rc == 2:
-                print(out[-1500:])
+                print(out[-600:])
             meta.setdefault("detected_by", {})["%s/%s" % (pid, tier)] = {
                 "exit": rc,
                 "violations": ["%s [%s]" % k for k in keys][:6],
